@@ -50,11 +50,13 @@ package future
 //@   ensures [idempotent] !ok ==> f.result == old(f.result) && fclosed == old(fclosed)
 //@   ensures [released] held == old(held)
 //@   ensures [monotone] forall ch int {fclosed[ch]} :: old(fclosed[ch]) ==> fclosed[ch]
+//@   ensures [done-monotone] forall g *Future {g.done} :: old(g.done) ==> g.done
 //@   ensures [leaf-frame] leaf(f) ==> (forall g *Future {g.done} :: g != f ==> (g.done <==> old(g.done)) && g.result == old(g.result)) && (forall ch int {fclosed[ch]} :: ch != f.completed && ch != f.cancelled ==> (fclosed[ch] <==> old(fclosed[ch])))
 //@   modifies any(Future.result), any(Future.done), fclosed, held
 //@   loop 1 invariant [range] 0 <= rangeindex + 1 && rangeindex + 1 <= len(f.futures)
 //@   loop 1 invariant [held] held == old(held)[f.mutex := 2] && f.done && f.result == result && fclosed[f.completed] && !fclosed[f.cancelled] && f.completed != nil && f.cancelled != nil && f.completed != f.cancelled && attached_ok(f) && !old(f.done)
 //@   loop 1 invariant [monotone] forall ch int {fclosed[ch]} :: old(fclosed[ch]) ==> fclosed[ch]
+//@   loop 1 invariant [done-monotone] forall g *Future {g.done} :: old(g.done) ==> g.done
 //@   loop 1 invariant [leaf-frame] leaf(f) ==> (forall g *Future {g.done} :: g != f ==> (g.done <==> old(g.done)) && g.result == old(g.result)) && (forall ch int {fclosed[ch]} :: ch != f.completed && ch != f.cancelled ==> (fclosed[ch] <==> old(fclosed[ch])))
 //
 //@ func (f *Future) Cancel(result interface{}) (ok bool)
@@ -66,11 +68,13 @@ package future
 //@   ensures [idempotent] !ok ==> f.result == old(f.result) && fclosed == old(fclosed)
 //@   ensures [released] held == old(held)
 //@   ensures [monotone] forall ch int {fclosed[ch]} :: old(fclosed[ch]) ==> fclosed[ch]
+//@   ensures [done-monotone] forall g *Future {g.done} :: old(g.done) ==> g.done
 //@   ensures [leaf-frame] leaf(f) ==> (forall g *Future {g.done} :: g != f ==> (g.done <==> old(g.done)) && g.result == old(g.result)) && (forall ch int {fclosed[ch]} :: ch != f.completed && ch != f.cancelled ==> (fclosed[ch] <==> old(fclosed[ch])))
 //@   modifies any(Future.result), any(Future.done), fclosed, held
 //@   loop 1 invariant [range] 0 <= rangeindex + 1 && rangeindex + 1 <= len(f.futures)
 //@   loop 1 invariant [held] held == old(held)[f.mutex := 2] && f.done && f.result == result && fclosed[f.cancelled] && !fclosed[f.completed] && f.completed != nil && f.cancelled != nil && f.completed != f.cancelled && attached_ok(f) && !old(f.done)
 //@   loop 1 invariant [monotone] forall ch int {fclosed[ch]} :: old(fclosed[ch]) ==> fclosed[ch]
+//@   loop 1 invariant [done-monotone] forall g *Future {g.done} :: old(g.done) ==> g.done
 //@   loop 1 invariant [leaf-frame] leaf(f) ==> (forall g *Future {g.done} :: g != f ==> (g.done <==> old(g.done)) && g.result == old(g.result)) && (forall ch int {fclosed[ch]} :: ch != f.completed && ch != f.cancelled ==> (fclosed[ch] <==> old(fclosed[ch])))
 //
 //@ func (f *Future) Result() (r interface{})
@@ -107,13 +111,22 @@ package future
 //
 // Clear: unless protected, every stored future is resolved (cancelled if it
 // was still open) and the store is emptied.
-//@ spec pred stored_ok(s *Store) = forall k packet.ID {s.store[k]} :: has(s.store, k) ==> s.store[k] != nil && held[s.store[k].mutex] == 0 && s.store[k].mutex != s.mutex && leaf(s.store[k])
+//@ spec pred stored_ok(s *Store) = forall k packet.ID {s.store[k]} :: has(s.store, k) ==> s.store[k] != nil && held[s.store[k].mutex] == 0 && s.store[k].mutex != s.mutex && attached_ok(s.store[k]) && forall i int {s.store[k].futures[i]} :: 0 <= i && i < len(s.store[k].futures) ==> s.store[k].futures[i].mutex != s.mutex
 //@ func (s *Store) Clear()
 //@   requires [unlocked] held[s.mutex] == 0
 //@   requires [stored] stored_ok(s)
 //@   ensures [protected] old(s.protected) ==> s.store == old(s.store)
 //@   ensures [cleared] !old(s.protected) ==> len(s.store) == 0 && fresh(s.store)
 //@   ensures [cancelled] !old(s.protected) ==> forall k packet.ID {old(s.store)[k]} :: old(has(s.store, k)) ==> old(s.store)[k].done
-//@   ensures [released] held[s.mutex] == 0
+//@   ensures [released] held == old(held)
+//@   ensures [done-monotone] forall g *Future {g.done} :: old(g.done) ==> g.done
 //@   modifies s.store, any(Future.result), any(Future.done), fclosed, held
-//@   loop 1 invariant [visited] held[s.mutex] == 2 && !s.protected && s.store == old(s.store) && stored_ok(s) && forall k packet.ID {visited[k]} :: visited[k] ==> s.store[k].done
+//@   loop 1 invariant [done-monotone] forall g *Future {g.done} :: old(g.done) ==> g.done
+//@   loop 1 invariant [visited] held == old(held)[s.mutex := 2] && !s.protected && s.store == old(s.store) && stored_ok(s) && forall k packet.ID {visited[k]} :: visited[k] ==> s.store[k].done
+
+//@ func (s *Store) Await(timeout time.Duration) (err error)
+//@   requires [unlocked] held[s.mutex] == 0
+//@   ensures [unlocked] held == old(held)
+//@   modifies held
+//@   loop 1 invariant [unlocked] held == old(held)
+//@   loop 2 invariant [locked] held == old(held)[s.mutex := 1]
